@@ -14,7 +14,7 @@ for d in sorted(glob.glob('seeded/C*-*/')):
     pid = mid.split('-')[0]
     if want and pid not in want:
         continue
-    p = subprocess.run(['tools/mutcheck.sh', pid, os.path.abspath(d + 'patch.diff'), 'quick'], capture_output=True, text=True)
+    p = subprocess.run(['tools/mutcheck.sh', pid, os.path.abspath(d + 'patch.diff'), 'quick'], capture_output=True, text=True, encoding='utf-8', errors='replace')
     out = p.stdout
     classes = sorted(set(re.findall(r'^\s+\[([^\]]+)\]', out, re.M)))
     viol = len(re.findall(r'^VIOLATION', out, re.M))
